@@ -1,10 +1,10 @@
 --------------------------- MODULE MC_FlowReject ---------------------------
-EXTENDS FlowReject, Json
+EXTENDS FlowReject, Json, SequencesExt
 
-CONSTANTS GenMode, GenDepth, MaxT, MaxN, MaxAdm, RuleSets
+CONSTANTS GenMode, GenDepth, MaxT, MaxN, MaxAdm, RuleSets, MaxReloads
 
-VARIABLE hist
-mcvars == <<fvars, hist>>
+VARIABLES hist, nrel
+mcvars == <<fvars, hist, nrel>>
 
 \* scaled geometry: global array 4 x 2 ms, default metric window 2 x 2 ms
 Cfg == [nt |-> 4, It |-> 8, n |-> 2, I |-> 4]
@@ -29,12 +29,22 @@ DTs == ({0, 1, Lg - (now % Lg) - 1, Lg - (now % Lg), Lg, cfg.I, cfg.It, 17} \ {-
 EnterEvents == {[e |-> "enter", id |-> Len(hist), res |-> "r1", n |-> n, t |-> now + dt] : n \in 0..MaxN, dt \in DTs}
 AdvEvents == {[e |-> "adv", t |-> now + dt] : dt \in DTs \ {0}}
 
+\* C11: the same rules again, under regenerated ids, in another order, with an unrelated resource
+\* added - through load-all or load-for-resource
+Renamed(r, k) == [r EXCEPT !.id = r.id \o "x" \o ToString(k)]
+ReloadEvents ==
+    IF nrel >= MaxReloads \/ given = {} THEN {}
+    ELSE LET rs == SetToSeq({Renamed(r, nrel + 1) : r \in given}) IN
+         {[e |-> "load", fam |-> "flow", op |-> "all", t |-> now, rules |-> rs \o <<[R("z" \o ToString(nrel), 1, 1, 0) EXCEPT !.res = "rz"]>>],
+          [e |-> "load", fam |-> "flow", op |-> "res", res |-> "r1", t |-> now, rules |-> rs]}
+
 MCEvents == IF ~on THEN ResetEvents
             ELSE IF given = {} THEN LoadEvents
-            ELSE EnterEvents \cup AdvEvents
+            ELSE EnterEvents \cup AdvEvents \cup ReloadEvents
 
-MCInit == FlowInit /\ hist = <<>>
-MCNext == \E ev \in MCEvents : Step(ev) /\ hist' = (IF GenMode THEN Append(hist, ev) ELSE <<>>)
+MCInit == FlowInit /\ hist = <<>> /\ nrel = 0
+MCNext == \E ev \in MCEvents : /\ Step(ev) /\ hist' = (IF GenMode THEN Append(hist, ev) ELSE <<>>)
+                              /\ nrel' = IF ev \in ReloadEvents THEN nrel + 1 ELSE nrel
 MCSpec == MCInit /\ [][MCNext]_mcvars
 
 Tokens == FoldSet(LAMBDA i, acc : acc + 1, 0, DOMAIN Adm("r1"))
